@@ -14,10 +14,12 @@ package main
 import (
 	"fmt"
 	"os"
+	"sort"
 	"strings"
 	"time"
 
 	"github.com/chrislusf/seaweedfs/weed/storage"
+	"github.com/chrislusf/seaweedfs/weed/storage/idx"
 	"github.com/chrislusf/seaweedfs/weed/storage/needle"
 	"github.com/chrislusf/seaweedfs/weed/storage/types"
 	"github.com/chrislusf/seaweedfs/weed/util"
@@ -184,7 +186,14 @@ type plan struct {
 	vt     ttl
 	scan   bool
 	h1, h2 []ev
+	sched  [][]ev // scan-based only: operations issued from inside the copy loop, before the visit of record i
+	h3     []ev   // operations after CommitCompact
 	keys   []uint64
+	// an abandoned compaction before the real one: after the first pre operations of h1 the first
+	// volume runs Compact/Compact2 (0 = none), optionally followed by cleanupCompact; nothing is committed
+	pre        int
+	preScan    bool
+	preCleanup bool
 }
 
 // runCase executes one plan on a fresh pair of volumes and records the case.
@@ -202,36 +211,99 @@ func (e *env) runCase(p plan, genNowNs uint64) {
 			answers = append(answers, ra)
 		}
 	}
-	run(p.h1)
 	va := e.s.GetVolume(a)
-	nowS := uint64(time.Now().Unix())
-	if p.scan {
-		hx.Must(va.Compact(0, 0))
+	if p.pre > 0 {
+		run(p.h1[:p.pre])
+		if p.preScan {
+			hx.Must(va.Compact(0, 0))
+		} else {
+			hx.Must(va.Compact2(0, 0))
+		}
+		if p.preCleanup {
+			hx.Must(va.VerifC04CleanupCompact())
+		}
+		run(p.h1[p.pre:])
 	} else {
+		run(p.h1)
+	}
+	nowS := uint64(time.Now().Unix())
+	switch {
+	case p.scan && len(p.sched) > 0:
+		next := 0
+		hx.Must(va.VerifC04CompactHooked(func(i int) {
+			if i < len(p.sched) {
+				run(p.sched[i])
+				next = i + 1
+			}
+		}))
+		// the scanner reached the end of the file: the remaining operations come after the scan
+		for ; next < len(p.sched); next++ {
+			run(p.sched[next])
+		}
+	case p.scan:
+		hx.Must(va.Compact(0, 0))
+	default:
 		hx.Must(va.Compact2(0, 0))
 	}
 	run(p.h2)
 	hx.Must(va.CommitCompact())
 	nowR := uint64(time.Now().UnixNano())
-	var ra, rb []string
-	nontrivial := false
-	for _, k := range p.keys {
-		ta, _ := e.read(a, k)
-		tb, fb := e.read(b, k)
-		ra = append(ra, ta)
-		rb = append(rb, tb)
-		if fb {
-			nontrivial = true
+	readAll := func() (ra, rb []string, nontrivial bool) {
+		for _, k := range p.keys {
+			ta, _ := e.read(a, k)
+			tb, fb := e.read(b, k)
+			ra = append(ra, ta)
+			rb = append(rb, tb)
+			if fb {
+				nontrivial = true
+			}
+			if ta != tb {
+				e.out.Count("read:differs", 1)
+			} else {
+				e.out.Count("read:same", 1)
+			}
 		}
-		if ta != tb {
-			e.out.Count("read:differs", 1)
-		} else {
-			e.out.Count("read:same", 1)
-		}
+		return
 	}
+	ra, rb, nontrivial := readAll()
 	datA, idxA, _ := va.FileStat()
 	datB, _, _ := e.s.GetVolume(b).FileStat()
 	ro := va.IsReadOnly()
+	rev := va.VerifC04Revision()
+	// the new .idx, entry by entry
+	type ks struct {
+		k uint64
+		s int64
+	}
+	var kss []ks
+	{
+		f, err := os.Open(va.FileName(".idx"))
+		hx.Must(err)
+		hx.Must(idx.WalkIndexFile(f, func(key types.NeedleId, offset types.Offset, size types.Size) error {
+			kss = append(kss, ks{uint64(key), int64(size)})
+			return nil
+		}))
+		f.Close()
+	}
+	sort.Slice(kss, func(i, j int) bool {
+		if kss[i].k != kss[j].k {
+			return kss[i].k < kss[j].k
+		}
+		return kss[i].s < kss[j].s
+	})
+	ksTerms := make([]string, len(kss))
+	for i, x := range kss {
+		ksTerms[i] = fmt.Sprintf("(%d%%N, %s)", x.k, hx.Z(x.s))
+	}
+	// operations after the commit: the two volumes may answer differently here
+	var ans3a, ans3b []string
+	for _, x := range p.h3 {
+		ans3a = append(ans3a, e.apply(a, x))
+		ans3b = append(ans3b, e.apply(b, x))
+	}
+	ra3, rb3, _ := readAll()
+	datA3, _, _ := va.FileStat()
+	datB3, _, _ := e.s.GetVolume(b).FileStat()
 	hx.Must(e.s.DeleteVolume(a))
 	hx.Must(e.s.DeleteVolume(b))
 	if time.Since(t0) > 20*time.Second {
@@ -250,19 +322,42 @@ func (e *env) runCase(p plan, genNowNs uint64) {
 		return hx.List(xs)
 	}
 	var canon []string
-	for _, x := range p.h1 {
+	for i, x := range p.h1 {
+		if p.pre > 0 && i == p.pre {
+			canon = append(canon, fmt.Sprintf("|pre%v%v|", p.preScan, p.preCleanup))
+		}
 		canon = append(canon, x.canon(genNowNs))
 		e.out.Count(fmt.Sprintf("op:%d", x.kind), 1)
 	}
 	canon = append(canon, "|"+algo+"|")
+	schedTerms := make([]string, len(p.sched))
+	for i, evs := range p.sched {
+		schedTerms[i] = terms(evs)
+		canon = append(canon, fmt.Sprintf("|v%d|", i))
+		for _, x := range evs {
+			canon = append(canon, x.canon(genNowNs))
+			e.out.Count(fmt.Sprintf("op:%d", x.kind), 1)
+		}
+	}
+	canon = append(canon, "|copied|")
 	for _, x := range p.h2 {
 		canon = append(canon, x.canon(genNowNs))
 		e.out.Count(fmt.Sprintf("op:%d", x.kind), 1)
 	}
-	term := fmt.Sprintf("{| vttl := (%d%%N, %d%%N); osz := %d; algo := %s; now_s := %s; now_r := %s; h1 := %s; h2 := %s; keys := %s; impl_ev := %s; impl_main := %s; impl_twin := %s; fin_dat := %s; fin_idx := %s; fin_ro := %s; twin_dat := %s |}",
-		p.vt.tc, p.vt.tu, types.OffsetSize, algo, u(nowS), u(nowR), terms(p.h1), terms(p.h2), hx.NList(p.keys),
-		hx.List(answers), hx.List(ra), hx.List(rb), u(datA), u(idxA/uint64(types.NeedleMapEntrySize)), hx.Bool(ro), u(datB))
+	canon = append(canon, "|commit|")
+	for _, x := range p.h3 {
+		canon = append(canon, x.canon(genNowNs))
+	}
+	term := fmt.Sprintf("{| vttl := (%d%%N, %d%%N); osz := %d; algo := %s; now_s := %s; now_r := %s; h1 := %s; sched := %s; h2 := %s; h3 := %s; keys := %s; impl_ev := %s; impl_main := %s; impl_twin := %s; fin_dat := %s; fin_idx := %s; fin_ro := %s; twin_dat := %s; fin_rev := %d; fin_ks := %s; impl_ev3_main := %s; impl_ev3_twin := %s; impl_main3 := %s; impl_twin3 := %s; fin_dat3 := %s; twin_dat3 := %s |}",
+		p.vt.tc, p.vt.tu, types.OffsetSize, algo, u(nowS), u(nowR), terms(p.h1), hx.List(schedTerms), terms(p.h2), terms(p.h3), hx.NList(p.keys),
+		hx.List(answers), hx.List(ra), hx.List(rb), u(datA), u(idxA/uint64(types.NeedleMapEntrySize)), hx.Bool(ro), u(datB),
+		rev, hx.List(ksTerms), hx.List(ans3a), hx.List(ans3b), hx.List(ra3), hx.List(rb3), u(datA3), u(datB3))
 	e.out.Add(term, fmt.Sprintf("vt%s;%s", p.vt.s, strings.Join(canon, ";")), nontrivial, p.kind)
+	e.out.Count(fmt.Sprintf("sched-slots:%d", len(p.sched)), 1)
+	e.out.Count(fmt.Sprintf("len-h3:%d", len(p.h3)), 1)
+	if p.pre > 0 {
+		e.out.Count(fmt.Sprintf("abandoned-compaction:scan=%v,cleanup=%v", p.preScan, p.preCleanup), 1)
+	}
 	e.out.Count("alg:"+algo, 1)
 	e.out.Count("vttl:"+p.vt.s, 1)
 	e.out.Count(fmt.Sprintf("len-h1:%d", len(p.h1)), 1)
@@ -364,7 +459,7 @@ const beyond32g = uint64(1<<35 + 64)
 func main() {
 	out := hx.Flags("C04", 200)
 	five := types.OffsetSize == 5
-	out.Rule = "per case two real volumes get the same phase-structured history (h1, Compact or Compact2 on the first volume, h2, CommitCompact on the first volume), 0-12 operations per phase over 3-4 keys x 2 cookies: writes (payload pat(tag<4, len in {0,1,3,8,17,40,300}), optional name/mime, needle TTL none/1m/1h/3d/5y, LastModified now/-2h/-10d/-400d/+2h/+10d or absent, AppendAtNs fresh/30 min old/TTL+1h old/5 days old) and deletes; volume TTL none/1m/1h/3d/137y/0m; then every key is read on both volumes; the first cases are the fixed witnesses of the known findings; with 5-byte offsets a fifth of the cases extend the .dat beyond 32 GiB (sparse) before or during the compaction (index-based only when before); non-trivial = the never-compacted volume serves a non-empty blob for some key; distinct = canonical history with times relative to the generation instant"
+	out.Rule = "per case two real volumes get the same phase-structured history (h1, Compact or Compact2 on the first volume, h2, CommitCompact on the first volume), 0-12 operations per phase over 3-4 keys x 2 cookies; 3 in 5 scan-based cases also issue 0-2 operations from inside the copy loop before the visit of each of the first 1-8 records (hooked scanner, same goroutine), 1 in 5 cases run an abandoned Compact/Compact2 (with or without cleanupCompact) in the middle of h1, half of the cases continue with 1-6 operations after the commit and read again: writes (payload pat(tag<4, len in {0,1,3,8,17,40,300}), optional name/mime, needle TTL none/1m/1h/3d/5y, LastModified now/-2h/-10d/-400d/+2h/+10d or absent, AppendAtNs fresh/30 min old/TTL+1h old/5 days old) and deletes; volume TTL none/1m/1h/3d/137y/0m; then every key is read on both volumes; the first cases are the fixed witnesses of the known findings; with 5-byte offsets a fifth of the cases extend the .dat beyond 32 GiB (sparse) before or during the compaction (index-based only when before); non-trivial = the never-compacted volume serves a non-empty blob for some key; distinct = canonical history with times relative to the generation instant"
 	dir, err := os.MkdirTemp("", "c04-vol")
 	hx.Must(err)
 	defer os.RemoveAll(dir)
@@ -405,6 +500,20 @@ func main() {
 			wit = append(wit, plan{kind: "repaired-fifth-byte", vt: noTTL, scan: false, keys: keys,
 				h1: []ev{w(now, 1, 0, 3, ns, noTTL)}, h2: []ev{{kind: kPad, off: beyond32g}, w(now+1, 2, 1, 3, ns, noTTL)}})
 		}
+		// fixed interleavings of writers with the scan-based copy loop (no finding: must read the same)
+		wit = append(wit,
+			// key 1 is overwritten after its record was copied, key 2 is deleted before the scanner reaches it
+			plan{kind: "mid-scan-fixed", vt: noTTL, scan: true, keys: []uint64{1, 2, 3}, h1: []ev{w(now, 1, 0, 3, ns, noTTL), w(now+1, 2, 1, 3, ns, noTTL), w(now+2, 3, 2, 8, ns, noTTL)},
+				sched: [][]ev{{}, {w(now+3, 1, 3, 17, ns, noTTL), {kind: kDelete, t: now + 4, id: 2, cookie: cookieOf(2, false)}}},
+				h3: []ev{w(now+5, 2, 1, 8, ns, noTTL)}},
+			// a record appended during the scan is visited by the scanner (and replayed by makeupDiff), then rewritten
+			plan{kind: "mid-scan-fixed", vt: noTTL, scan: true, keys: []uint64{1, 2, 3}, h1: []ev{w(now, 1, 0, 3, ns, noTTL), w(now+1, 3, 1, 3, ns, noTTL)},
+				sched: [][]ev{{w(now+2, 2, 2, 8, ns, noTTL)}, {}, {w(now+3, 2, 3, 1, ns, noTTL), w(now+4, 3, 0, 40, ns, noTTL)}},
+				h2: []ev{{kind: kDelete, t: now + 5, id: 1, cookie: cookieOf(1, false)}}},
+			// an abandoned Compact (files left behind) before the real Compact2
+			plan{kind: "abandoned-fixed", vt: noTTL, scan: false, keys: []uint64{1, 2, 3}, pre: 2, preScan: true,
+				h1: []ev{w(now, 1, 0, 40, ns, noTTL), w(now+1, 2, 1, 40, ns, noTTL), {kind: kDelete, t: now + 2, id: 1, cookie: cookieOf(1, false)}, w(now+3, 3, 2, 3, ns, noTTL)},
+				h2: []ev{w(now+4, 1, 3, 3, ns, noTTL)}})
 		for _, p := range wit {
 			if out.Len() < out.N {
 				e.runCase(p, now)
@@ -452,7 +561,20 @@ func main() {
 			p.h2 = genOps(r, r.Range(0, 8), keys, now, p.vt, &seq)
 		default:
 			p.h1 = genOps(r, n1, keys, now, p.vt, &seq)
+			if p.scan && r.Chance(3, 5) {
+				// writers during the copy loop: 1-8 visit slots with 0-2 operations each
+				p.kind = "mid-scan"
+				for i, ns := 0, r.Range(1, 8); i < ns; i++ {
+					p.sched = append(p.sched, genOps(r, r.PickInt([]int{0, 1, 1, 2}), keys, now, p.vt, &seq))
+				}
+			}
 			p.h2 = genOps(r, n2, keys, now, p.vt, &seq)
+			if r.Chance(1, 5) && len(p.h1) > 0 {
+				p.pre, p.preScan, p.preCleanup = r.Range(1, len(p.h1)), r.Bool(), r.Bool()
+			}
+		}
+		if r.Chance(1, 2) {
+			p.h3 = genOps(r, r.Range(1, 6), keys, now, p.vt, &seq)
 		}
 		e.runCase(p, now)
 	}
